@@ -23,6 +23,8 @@ import (
 	"flag"
 	"fmt"
 	"os"
+	"os/exec"
+	"path/filepath"
 	"sort"
 	"strconv"
 	"strings"
@@ -73,6 +75,9 @@ type parent struct {
 	hangMu map[string]*sync.Mutex
 	hung   map[string]string // target -> violation key
 	deaths map[string]int    // target, death key -> children lost
+	keyed  map[string]int64  // outcome classes of the enumerated key-aware grid
+
+	builtPlugin string
 }
 
 const maxSameDeaths = 6
@@ -184,6 +189,12 @@ func (p *parent) merge(t *target, j job, e *childEnd, countEvals bool) {
 	}
 	for k, n := range s.Classes {
 		ts.Classes[k] += n
+		if j.Kind == "keyed" {
+			if p.keyed == nil {
+				p.keyed = map[string]int64{}
+			}
+			p.keyed[k] += n
+		}
 	}
 	for k, n := range s.Skipped {
 		ts.Skipped[k] += n
@@ -417,6 +428,7 @@ func main() {
 	}
 	c := loadSeeds()
 	fmt.Printf("   seeds: %s\n", c.describe())
+	p.ensureFakePlugin()
 	if c.nCorpus == 0 {
 		r.Inconclusive("frozen corpus not found under %s/corpus", verifRoot())
 	}
@@ -447,6 +459,12 @@ func main() {
 	for _, t := range targets {
 		units = append(units, unit{t, job{Kind: "seeds", From: 0, To: len(c.all)}})
 	}
+	// the key-aware grid, enumerated completely (it is also part of the seeds,
+	// but here its coverage cells are accounted for on their own)
+	keyedT := targetByName("DecryptKeyed")
+	for off, n := 0, keyedGridSize(); off < n; off += 88 {
+		units = append(units, unit{keyedT, job{Kind: "keyed", From: off, To: min(off+88, n)}})
+	}
 	for off := 0; ; off += batch {
 		any := false
 		for _, t := range targets {
@@ -464,6 +482,7 @@ func main() {
 		p.runRange(exe, units[i].t, units[i].j, nil, true)
 	})
 	r.Count("quick_inputs", r.Evals())
+	p.keyedGuard()
 	if !p.limitOK {
 		r.Inconclusive("no child ran under RLIMIT_AS")
 	}
@@ -505,6 +524,9 @@ func main() {
 			r.Count("inputs_not_rejected_outright", acc)
 		}
 	}
+	if p.builtPlugin != "" {
+		os.Remove(p.builtPlugin)
+	}
 	r.MinEvals = int64(len(targets)) * 15000
 	r.MinDistinct = len(targets) * 8000
 	r.Finish()
@@ -544,4 +566,86 @@ func (p *parent) replay(path string) {
 	p.runRange(p.exe, t, job{Kind: "files", Files: []string{f.Name()}, From: 0, To: 1}, nil, true)
 	p.r.Distinct("replay")
 	p.r.Sample(map[string]any{"target": t.name, "input": "replay file " + path, "bytes_quoted": fmt.Sprintf("%.160q", in)})
+}
+
+// ensureFakePlugin makes the scripted plugin binary available to the children
+// (./check exports VERIF_FAKEPLUGIN for the plugin properties; when it does
+// not for this one, the monitor builds it itself).
+func (p *parent) ensureFakePlugin() {
+	if os.Getenv("VERIF_FAKEPLUGIN") != "" || os.Getenv("VERIF_C14_NOPLUGIN") != "" {
+		return
+	}
+	out := filepath.Join(scratchDir(), fmt.Sprintf("c14-fakeplugin-%d", os.Getpid()))
+	args := []string{"build"}
+	args = append(args, strings.Fields(os.Getenv("VERIF_MODFLAG"))...)
+	args = append(args, "-o", out, "./cmd/fakeplugin")
+	cmd := exec.Command("go", args...)
+	cmd.Dir = filepath.Join(p.r.Root, "harness")
+	cmd.Env = goEnv()
+	if b, err := runWithBackstop(cmd, 10*time.Minute); err != nil {
+		p.r.Inconclusive("cannot build the scripted plugin for the key-aware plugin cases: %v %.300s", err, b)
+		return
+	}
+	os.Setenv("VERIF_FAKEPLUGIN", out)
+	p.builtPlugin = out
+}
+
+// keyedGuard is the vacuity guard of the key-aware family: the family is only
+// worth anything if its headers really carry a valid MAC. For every identity
+// kind that does not fix the file key size itself, at least one case with a
+// short (1-15 byte) and one with a long (>16) key must have been taken by
+// Decrypt past the MAC check; for every kind the 16-byte case must have.
+func (p *parent) keyedGuard() {
+	p.mu.Lock()
+	defer p.mu.Unlock()
+	cells := map[string]map[string]int64{}
+	for cls, n := range p.keyed {
+		f := strings.SplitN(cls, " ", 2)
+		if len(f) != 2 || !strings.Contains(f[0], "/") {
+			continue
+		}
+		m := cells[f[0]]
+		if m == nil {
+			m = map[string]int64{}
+			cells[f[0]] = m
+		}
+		m["cases"] += n
+		switch {
+		case strings.HasPrefix(f[1], "past-MAC"):
+			m["past_mac"] += n
+		case strings.HasPrefix(f[1], "skipped"), strings.HasPrefix(f[1], "not constructible"):
+			m["not_run"] += n
+		default:
+			m["stopped_before_mac"] += n
+		}
+	}
+	p.r.Set("keyed_cells", cells)
+	var pastTotal int64
+	for _, m := range cells {
+		pastTotal += m["past_mac"]
+	}
+	p.r.Count("keyed_cases_past_mac", pastTotal)
+	if len(p.best) > 0 {
+		return // a refuted run is not also called vacuous: a panicking cell cannot report
+	}
+	for k := 0; k < nKinds; k++ {
+		need := []string{"16"}
+		if !kindEnforces16[k] {
+			need = []string{"short", "16", "long"}
+		}
+		for _, lc := range need {
+			cell := kindNames[k] + "/" + lc
+			if cells[cell]["past_mac"] == 0 {
+				p.r.Inconclusive("key-aware family: no case of cell %s was taken past the header MAC (cases=%d stopped=%d not run=%d)",
+					cell, cells[cell]["cases"], cells[cell]["stopped_before_mac"], cells[cell]["not_run"])
+			}
+		}
+		if kindEnforces16[k] {
+			for _, lc := range []string{"short", "long"} {
+				if cells[kindNames[k]+"/"+lc]["cases"] == 0 {
+					p.r.Inconclusive("key-aware family: cell %s/%s was not run", kindNames[k], lc)
+				}
+			}
+		}
+	}
 }
